@@ -17,34 +17,35 @@ def Normal (x : Bytes) : Prop := normElem false x = .ok x
 instance (x : Bytes) : Decidable (Normal x) := by unfold Normal; infer_instance
 
 theorem normElem_no_panic (isPath : Bool) (s : Bytes) : ∀ site, normElem isPath s ≠ .panic site := by
-  sorry
+  exact fun site => c08_normElem_no_panic isPath s site
 
 theorem canonPath_no_panic (s3 : Bool) (p : Bytes) : ∀ site, canonPath s3 p ≠ .panic site := by
-  sorry
+  exact (C09.canonPath_err_kind s3 p).2
 
 theorem parseQuery_no_panic (q : Bytes) : ∀ site, parseQuery q ≠ .panic site := by
-  sorry
+  exact (parseQuery_err_kind' q).2
 
 /-- Everything the query parser stores is in normal form… -/
 theorem parseQuery_normal (q : Bytes) (m : QueryMap) (h : parseQuery q = .ok m) :
     ∀ kv ∈ m, Normal kv.1 ∧ kv.2 ≠ [] ∧ ∀ v ∈ kv.2, Normal v := by
-  sorry
+  exact c08_parseQuery_good q m h
 
 /-- …and the documented-as-panicking unescape function never panics on normal-form text (the only
 text the validation path gives it). -/
 theorem unescape_total_on_normal (x : Bytes) (h : Normal x) : ∃ d, unescapeUri x = .ok d := by
-  sorry
+  exact c08_unescape_normal h
 
 /-- Folding keeps the parameters in normal form with non-empty value lists. -/
 theorem fromRequestParts_invariants (H : Bytes → Bytes) (opts : Options) (other : OtherCharset) (req : Request)
     (fp : FromParts) (h : fromRequestParts H opts other req = .ok fp) :
     (∀ kv ∈ fp.creq.params, Normal kv.1 ∧ kv.2 ≠ [] ∧ ∀ v ∈ kv.2, Normal v) ∧
     (∀ kv ∈ fp.creq.headers, kv.2 ≠ []) := by
-  sorry
+  obtain ⟨h1, h2⟩ := c08_fromRequestParts_inv H opts other req fp h
+  exact ⟨h1, fun kv hkv => (h2 kv hkv).2.1⟩
 
 theorem fromRequestParts_no_panic (H : Bytes → Bytes) (opts : Options) (other : OtherCharset) (req : Request) :
     ∀ site, fromRequestParts H opts other req ≠ .panic site := by
-  sorry
+  exact fun site => c08_fromRequestParts_no_panic H opts other req site
 
 /-- A folded request whose merged `path?query` exceeds what `http::Uri` can hold is refused with an
 error (400), not a panic. -/
@@ -57,35 +58,65 @@ theorem folded_uri_too_long_is_error (H : Bytes → Bytes) (opts : Options) (oth
     (hlong : (if canonQuery (mergeParams up bp) = [] then p
               else p ++ [0x3F] ++ canonQuery (mergeParams up bp)).length > 65534) :
     fromRequestParts H opts other req = .err .MalformedQueryString := by
-  sorry
+  unfold fromRequestParts
+  simp only [hp, hq, hf, hd, hb, if_true]
+  unfold URI_MAX_LEN
+  split
+  · rename_i hqs
+    rw [if_pos hqs] at hlong
+    rw [if_pos hlong]
+  · rename_i hqs
+    rw [if_neg hqs] at hlong
+    rw [if_pos hlong]
 
 /-- Parameter extraction, requirement checks and date parsing never panic on what canonicalisation
 produces, for any requirement set. -/
 theorem getAuthenticator_no_panic (H : Bytes → Bytes) (reqs : Requirements) (opts : Options) (other : OtherCharset)
     (req : Request) (fp : FromParts) (h : fromRequestParts H opts other req = .ok fp) :
     ∀ site, getAuthenticator H reqs fp.creq ≠ .panic site := by
-  sorry
+  obtain ⟨h1, h2⟩ := c08_fromRequestParts_inv H opts other req fp h
+  exact fun site => c08_getAuthenticator_no_panic H reqs fp.creq h1 h2 site
 
 /-- After a successful `prevalidate` the string-to-sign is defined (the `expect` at auth.rs:288
 cannot fire); `prevalidate` itself never panics. -/
 theorem stringToSign_defined (a : Authenticator) (region service : Bytes) (now : Int)
     (h : prevalidate a region service now = .ok ()) : ∃ sts, stringToSign a = .ok sts := by
-  sorry
+  exact stringToSign_ok_of_prevalidate h
 
 theorem prevalidate_no_panic (a : Authenticator) (region service : Bytes) (now : Int) :
     ∀ site, prevalidate a region service now ≠ .panic site := by
-  sorry
+  exact fun site => c08_prevalidate_no_panic a region service now site
 
 /-- Request validation never panics: for every request, configuration, option and requirement set,
 provider and provider state, the outcome is a value or an error. -/
 theorem validate_no_panic {σ : Type} (H : Bytes → Bytes) (cfg : Config) (P : Provider σ) (s : σ) (req : Request) :
     ∀ site, (validate H cfg P s req).out ≠ .panic site := by
-  sorry
+  intro site h
+  unfold validate at h
+  split at h
+  · cases h
+  · rename_i p hp
+    exact c08_fromRequestParts_no_panic _ _ _ _ _ hp
+  · rename_i fp hfp
+    obtain ⟨h1, h2⟩ := c08_fromRequestParts_inv H cfg.opts cfg.other req fp hfp
+    split at h
+    · cases h
+    · rename_i p hp
+      exact c08_getAuthenticator_no_panic H cfg.reqs fp.creq h1 h2 _ hp
+    · simp only [] at h
+      split at h
+      · cases h
+      · rename_i p hp
+        exact c08_validateSignature_no_panic _ _ _ _ _ _ _ _ hp
+      · cases h
 
 /-- Secret-key construction returns a key or the error for every capacity and every string. -/
 theorem secretFromStr_total (M : Nat) (s : Bytes) :
     (∃ k, secretFromStr M s = .ok k) ∨ secretFromStr M s = .tooLong := by
-  sorry
+  unfold secretFromStr
+  split
+  · exact .inr rfl
+  · exact .inl ⟨_, rfl⟩
 
 example : Normal b!"a%2Fb~" := by decide
 example : ¬ Normal b!"a/b" := by decide
